@@ -1616,6 +1616,9 @@ class LegPipe(LegCharge):
 
         """
         super().save_hdf5(hdf5_saver, h5gr, subpath)
+        # :meth:`from_hdf5` needs the flags, but the LegCharge format 'flat' does not write them
+        h5gr.attrs['sorted'] = self.sorted
+        h5gr.attrs['bunched'] = self.bunched
         hdf5_saver.save(self.legs, subpath + 'legs')
 
     @classmethod
